@@ -310,7 +310,7 @@ EXH_PARAMS = [
 
 
 def generate(prop, rng, tier):
-    count = {"quick": 1600, "thorough": 24000, "search": 5000}[tier]
+    count = {"quick": 2200, "thorough": 24000, "search": 5000}[tier]
     if tier == "thorough":
         for n in range(1, 8):
             for t in all_trees(n):
